@@ -1,7 +1,7 @@
 //! C20 — results do not depend on memory layout, strides or ownership.
 use ndarray::prelude::*;
 use ndarray::{CowArray, Data, DataMut, Dimension, IntoDimension, RemoveAxis};
-use ndarray_stats::histogram::strategies::Sqrt;
+use ndarray_stats::histogram::strategies::{Auto, BinsBuildingStrategy, FreedmanDiaconis, Rice, Sqrt, Sturges};
 use ndarray_stats::histogram::{Bins, Edges, Grid, GridBuilder};
 use ndarray_stats::interpolate::{Linear, Nearest};
 use ndarray_stats::{CorrelationExt, DeviationExt, EntropyExt, HistogramExt, MaybeNan, MaybeNanExt, Quantile1dExt, QuantileExt, Sort1dExt, SummaryStatisticsExt};
@@ -112,6 +112,7 @@ fn mut_i32<S: DataMut<Elem = i32>, D: Dimension + RemoveAxis>(make: &dyn Fn() ->
 
 fn mut_i32_1d<S: DataMut<Elem = i32>>(make: &dyn Fn() -> ArrayBase<S, Ix1>, out: &mut Sig) {
     let n = make().len();
+    strategies_1d(&make(), out);
     let mut a = make();
     out.push(("quantile_mut".into(), Val::S(format!("{:?}", a.quantile_mut(n64(0.4), &Linear)))));
     let mut a = make();
@@ -176,6 +177,44 @@ fn two_d_i64<S: Data<Elem = i64>>(a: &ArrayBase<S, Ix2>, out: &mut Sig) {
         }
         Err(e) => out.push(("grid_builder".into(), Val::S(format!("{:?}", e)))),
     }
+    // the strategies that look at order statistics of each column
+    match GridBuilder::<FreedmanDiaconis<i64>>::from_array(a) {
+        Ok(gb) => {
+            let g = gb.build();
+            out.push(("grid_builder_fd".into(), Val::S(format!("{:?}", g.projections().iter().map(|b| (0..b.len()).map(|i| b.index(i)).collect::<Vec<_>>()).collect::<Vec<_>>()))));
+        }
+        Err(e) => out.push(("grid_builder_fd".into(), Val::S(format!("{:?}", e)))),
+    }
+    match GridBuilder::<Auto<i64>>::from_array(a) {
+        Ok(gb) => {
+            let g = gb.build();
+            out.push(("grid_builder_auto".into(), Val::S(format!("{:?}", g.projections().iter().map(|b| (0..b.len()).map(|i| b.index(i)).collect::<Vec<_>>()).collect::<Vec<_>>()))));
+        }
+        Err(e) => out.push(("grid_builder_auto".into(), Val::S(format!("{:?}", e)))),
+    }
+}
+
+/// every bin-building strategy on a 1-D array: number of bins and the bins built, or the error
+fn strategies_1d<S: Data<Elem = i32>>(a: &ArrayBase<S, Ix1>, out: &mut Sig) {
+    macro_rules! st {
+        ($name:expr, $s:ident) => {
+            out.push((
+                format!("strategy_{}", $name),
+                Val::S(match $s::<i32>::from_array(a) {
+                    Ok(s) => {
+                        let b = s.build();
+                        format!("Ok(n_bins {}, bins {:?})", s.n_bins(), (0..b.len()).map(|i| b.index(i)).collect::<Vec<_>>())
+                    }
+                    Err(e) => format!("Err({:?})", e),
+                }),
+            ));
+        };
+    }
+    st!("sqrt", Sqrt);
+    st!("rice", Rice);
+    st!("sturges", Sturges);
+    st!("fd", FreedmanDiaconis);
+    st!("auto", Auto);
 }
 
 #[derive(Debug, Clone)]
